@@ -547,12 +547,12 @@ func specBytesEq8(a, b []byte) bool {
 //@ ensures[dom]  result0 == 1 || result0 == 2 || result0 == 4
 
 //@ func calculateModRM
-//@ props C02 C01
+//@ props C02 C01 C03
 //@ requires mem != nil && specValidMem(mem)
 //@ requires bitMode == cpu.MODE_16BIT || bitMode == cpu.MODE_32BIT
 //@ requires regBits&0xC7 == 0
-//@ ensures[reg] err == nil ==> modrmByte&0x38 == regBits
-//@ ensures[ea]  err == nil ==> specEAOK(mem, specMode(bitMode), modrmByte, sibByte, dispBytes)
+//@ ensures[reg@C02+C01] err == nil ==> modrmByte&0x38 == regBits
+//@ ensures[ea@C02+C01]  err == nil ==> specEAOK(mem, specMode(bitMode), modrmByte, sibByte, dispBytes)
 //@ ensures[size@C03] err == nil && ng_operand.SpecAddrSize(mem, specMode(bitMode)) != 0 ==> len(dispBytes) == ng_operand.SpecDispBytes(mem, specMode(bitMode)) && specHasSIB(specAddrSize(mem, specMode(bitMode)), modrmByte) == (ng_operand.SpecSibBytes(mem, specMode(bitMode)) == 1)
 
 //@ func handleJcc
